@@ -1291,21 +1291,36 @@ where
     }
 
     pub(crate) async fn fsyncdata(&self) -> IOResult<()> {
-        if self.fsync_in_progress.compare_exchange(false, true, Ordering::AcqRel, Ordering::Acquire).is_err() {
-            return Ok(())
-        }
+        loop {
+            if self.fsync_in_progress.compare_exchange(false, true, Ordering::AcqRel, Ordering::Acquire).is_err() {
+                return Ok(())
+            }
 
-        let _flag = ResetableFlag { flag: &self.fsync_in_progress };
+            {
+                let _flag = ResetableFlag { flag: &self.fsync_in_progress };
 
-        let safe = self.safe.read().await;
-        if let Some(ablob) = &safe.active_blob {
-            let ablob = ablob.read().await;
-            if !self.too_many_dirty_bytes(ablob.file_dirty_bytes()) {
+                let safe = self.safe.read().await;
+                let sync_required = match &safe.active_blob {
+                    Some(ablob) => self.too_many_dirty_bytes(ablob.read().await.file_dirty_bytes()),
+                    None => false
+                };
+                if sync_required {
+                    safe.fsyncdata().await?;
+                }
+            }
+
+            // A write that completed while the flag was set did not request a sync (see `should_try_fsync`),
+            // and its bytes are not covered by the sync above. Look again now that the flag is released,
+            // otherwise these bytes stay dirty until some later write happens to exceed the limit
+            let safe = self.safe.read().await;
+            let sync_required = match &safe.active_blob {
+                Some(ablob) => self.too_many_dirty_bytes(ablob.read().await.file_dirty_bytes()),
+                None => false
+            };
+            if !sync_required {
                 return Ok(());
             }
         }
-
-        safe.fsyncdata().await
     }
 
     /// Dumps indexes on old blobs. This method is slow, so it is better to run it in background
